@@ -10,6 +10,14 @@ func init() {
 			"only under (position == target position) (R10a) — so internal-node hashes can never be reported as leaves; and on every success path of both Modify " +
 			"implementations every deleted hash is removed from the index (R10b).",
 		NotDecided: "the positions returned, GetHash on vacated positions, the count identity beyond 'only leaves go in, every deleted leaf goes out', removal on undo of additions.",
-		Rules:      []RuleDef{{ID: "R10", Statement: "leaf-index discipline", Run: runC10}},
+		Rules: []RuleDef{{ID: "R10", Statement: "leaf-index discipline", Run: runC10},
+			{ID: "R10c", Statement: "coordinate switch last", Run: func(p *Program, r *Report) {
+				r.Rule("R10c", "COORD-SWITCH-LAST: a function that switches the map forest's TotalRows finishes every translation from the old TotalRows before the store (afterwards the translation is the identity and indexed positions go stale)")
+				checkCoordSwitch(p, r, "R10c")
+			}},
+			{ID: "R10d", Statement: "undo of an addition un-indexes", Run: func(p *Program, r *Report) {
+				r.Rule("R10d", "UNDO-ADD-UNINDEX: in each forest's undo-one-addition function every removal of a node is followed on all paths by the removal of its hash from the leaf index")
+				checkUndoAddUnindex(p, r, "R10d")
+			}}},
 	})
 }
